@@ -11,18 +11,17 @@ import types
 
 
 class PyBytesIO:
+    """io.BytesIO semantics for the operations gunicorn.http uses: a byte buffer with a *position*.
+    BytesIO(initial) starts at position 0 (a following write overwrites!); write() at the end appends;
+    tell(); seek(0, SEEK_END); getvalue().  Appends are kept as a list of parts so that symbolic byte strings are
+    only concatenated when the value is asked for."""
+
     def __init__(self, initial=b""):
         self._parts = [initial] if len(initial) else []
         self._len = len(initial)
+        self._pos = 0
 
-    def write(self, data):
-        n = len(data)
-        if n:
-            self._parts.append(data)
-            self._len += n
-        return n
-
-    def getvalue(self):
+    def _flat(self):
         if not self._parts:
             return b""
         if len(self._parts) > 1:
@@ -32,13 +31,35 @@ class PyBytesIO:
             self._parts = [acc]
         return self._parts[0]
 
+    def write(self, data):
+        n = len(data)
+        if not n:
+            return 0
+        if self._pos == self._len:
+            self._parts.append(data)
+            self._len += n
+        else:
+            cur = self._flat()
+            new = cur[:self._pos] + data + cur[self._pos + n:]
+            self._parts = [new]
+            self._len = len(new)
+        self._pos += n
+        return n
+
+    def getvalue(self):
+        return self._flat()
+
     def tell(self):
-        return self._len
+        return self._pos
 
     def seek(self, off, whence=0):
-        if not (off == 0 and whence == os.SEEK_END):
-            raise NotImplementedError("PyBytesIO only supports seek(0, SEEK_END)")
-        return self._len
+        if whence == os.SEEK_END and off == 0:
+            self._pos = self._len
+        elif whence == 0 and 0 <= off <= self._len:
+            self._pos = off
+        else:
+            raise NotImplementedError("PyBytesIO.seek(%r, %r)" % (off, whence))
+        return self._pos
 
 
 _installed = False
